@@ -177,7 +177,7 @@ def main(ck):
     ex.append(dict(prefill=prefill, writers=writers, readers=nreaders, max_preemptions=maxpre, schedules=r['runs'], complete=bool(r['complete'])))
     ck.evaluations += r['runs']
     ck.nontrivial.update('ex/%s/%d' % (writers, i) for i in range(min(r['runs_with_overlap'], 50)))
-  ck.extra['exhaustive'] = ex
+  ck.extra['exhaustive_configs'] = ex
   drv.close()
 
 
